@@ -441,7 +441,7 @@ func (it *Interp) valueLeq(a, b Value) bool {
 		for _, a1 := range x.Alts {
 			found := false
 			for _, b1 := range y.Alts {
-				if it.sameValue(a1, b1) {
+				if it.sameValue(a1, b1) || it.valueLeq(a1, b1) {
 					found = true
 				}
 			}
